@@ -248,3 +248,19 @@ func (w *World) InsPos(ins ssa.Instruction) string {
 	}
 	return w.Pos(ins.Parent().Pos())
 }
+
+// PkgConst returns the value of an integer constant of an imported package (e.g. syscall.EPOLLIN) for this configuration.
+func (w *World) PkgConst(path, name string) (int64, bool) {
+	for _, imp := range w.Main.Pkg.Imports() {
+		if imp.Path() != path {
+			continue
+		}
+		c, ok := imp.Scope().Lookup(name).(*types.Const)
+		if !ok {
+			return 0, false
+		}
+		v, ok := constant.Int64Val(constant.ToInt(c.Val()))
+		return v, ok
+	}
+	return 0, false
+}
